@@ -28,6 +28,15 @@ CHECKS = {'C01': {'design_ref': 'DESIGN.md 3/C01',
                  'explored under pseudoinverse (chained: inverse of the inverse), retargeting and one in-place composition to depth 3 (quick) / 5 (thorough). '
                  'Oracle: two-sided inverse on domain probes and equality with the reference inverse map, class honesty predicates, source/target swap for '
                  'alignments, landmarks sent back exactly for interpolating warps (reverse-fit spline solved independently), receiver unchanged.'},
+ 'C05': {'design_ref': 'DESIGN.md 3/C05',
+         'note': 'open finding D24 matched by footprint; [interp] well-formed = own queries do not fail',
+         'technique': 'explicit-state BFS over operation histories on the implementation, each transition checked against a reference model',
+         'text': 'Every concrete Vectorizable class (all shape classes 2-D/3-D with landmarks, Image/MaskedImage/BooleanImage letters, every vectorizable '
+                 'homogeneous transform and alignment variant) x vector letters (own vector, zeros, generic, canonical quaternions from an axis-angle grid) x '
+                 'every wrong length {0,1,n-1,n+1,2n,...}, explored to depth 2 (quick) / 3 (thorough: from_vector results and in-place composed objects are '
+                 'vectorised again). Oracle: read-only 1-D vector of n_parameters, owner writable and unchanged, complete-observation round trip, '
+                 'from_vector(v).as_vector()==v, masked raster order, alignment target sync, wrong length raises or yields a well-formed object (battery of '
+                 'own queries).'},
  'C06': {'design_ref': 'DESIGN.md 3/C06',
          'note': 'thorough levels 4-5 use a narrowed alphabet; buffers are discovered by walking __dict__ (only to find places to write; verdicts use the '
                  'public observation)',
@@ -38,6 +47,16 @@ CHECKS = {'C01': {'design_ref': 'DESIGN.md 3/C01',
                  'landmark-manager machine (set, set None, get, get None, del, iterate, copy, assign manager to owner, copy/transform owner, edit pool value, '
                  'edit fetched group) explored breadth-first to depth 3 (quick) / 5 (thorough) against an ordered-dict-of-owned-arrays model, with write '
                  'probes on every newly stored group.'},
+ 'C07': {'design_ref': 'DESIGN.md 3/C07',
+         'note': 'continuous families decided on parameter grids; tolerances >=1000x over the measured error',
+         'technique': 'exhaustive enumeration of alignment letters x family members x noise letters on the implementation against closed-form references and '
+                      'competitor grids',
+         'text': '21 alignment class/option letters x 4-5 source letters (3-6 points 2-D, 4-5 points 3-D, PWA fan) x every synthesising family member (26 '
+                 'quick / 67-70 thorough: translations, scales, rotations in all quadrants, reflections, similarities, affinities with shear / negative '
+                 'determinant) x noise levels; thorough re-aligns the aligned source (depth 2). Oracle: exact recovery at noise 0, closed-form references '
+                 '(centroid difference, Kabsch via polar decomposition, lstsq) plus exhaustive competitor grids for optimality, determinant sign, '
+                 'centroid/size clauses, TPS/PWA interpolation, PWA affinity inside triangles and continuity across edges, '
+                 'aligned_source/alignment_error/target bookkeeping, GPA.'},
  'C08': {'design_ref': 'DESIGN.md 3/C08',
          'note': 'general-position point sets; exact comparison (same arithmetic on both sides)',
          'technique': 'explicit-state BFS over operation histories on the implementation, each transition checked against a reference model',
@@ -63,6 +82,15 @@ CHECKS = {'C01': {'design_ref': 'DESIGN.md 3/C01',
                  'with states merged by prefix (confluence) and no-merge roots executing every chunking literally. After every increment n_samples, mean, '
                  'eigenvalues, principal projector and eigen-directions (PCA) or mean vector and dense precision (GMRF: 7-12 graphs x mode x storage x bias x '
                  '1-2 features per vertex x 4 feed kinds) must equal both the batch model of the prefix and a plain-numpy definition.'},
+ 'C12': {'design_ref': 'DESIGN.md 3/C12',
+         'note': 'one guarded data letter of 14 samples per (V, k); float32 tolerance 1e-3, float64 1e-9',
+         'technique': 'exhaustive small-scope enumeration of graphs x configuration letters explored to depth 2 on the implementation against a reference '
+                      'definition',
+         'text': 'Every undirected graph on 2-3 (quick) / 2-4 (thorough) vertices, every rooted tree on <=4 vertices and every digraph on <=3 (thorough: 4) '
+                 'vertices x 1-3 features per vertex; level 0 builds the sparse AND the dense model for every (mode, bias, n_components, dtype, feed kind) '
+                 'letter and compares both with a plain-numpy definition (sum over edges / vertices of inverted block covariances scattered at their blocks), '
+                 'symmetry, PSD, exact block sparsity pattern, isolated-vertex blocks, mean; level 1 runs 14 read-only queries (Mahalanobis single/batched in '
+                 '6 forms, mean, PCA) on each model pair.'},
  'C13': {'design_ref': 'DESIGN.md 3/C13',
          'note': 'finite letter grids stand for the continuous bounds; resampling path at fractional centres compared on interior points only',
          'technique': 'exhaustive enumeration of a finite input/operation alphabet on the implementation against a slicing / per-pixel reference model '
@@ -71,6 +99,16 @@ CHECKS = {'C01': {'design_ref': 'DESIGN.md 3/C01',
                  'on/off on 9 image letters (3 classes, 2-D/3-D, uint8/float/bool, 1-5 channels), chained to depth 2 in thorough, is compared bit for bit with '
                  'plain slicing incl. landmarks, mask, dtype and the refusal contract; patch extraction is run on EVERY integer centre from -2 to S+1 for 6 '
                  'patch shapes x 3 offset sets x both paths against a per-pixel reference, plus fractional centres and extract/set round trips.'},
+ 'C18': {'design_ref': 'DESIGN.md 3/C18',
+         'note': 'masked normalisation is read as acting on the pixels under the mask; result/input memory sharing is noted, not failed ([interp])',
+         'technique': 'exhaustive cross product of feature letters x image letters explored to depth 2 on the implementation, differential array-vs-image plus '
+                      'numpy reference',
+         'text': 'Every feature importable from menpo.feature (gradient, gaussian_filter, igo, double_igo, es, daisy with step/radius/ring letters, no_op, '
+                 'sum_channels, the normalisers in both modes and with zero-scale handling, user features built with the exported decorators) x 52 image '
+                 'letters (Image / MaskedImage all-true and sparse, 1-4 channels, float32/float64, 0-3 landmark groups, minimum-size, single-true-pixel, '
+                 'constant, 3-D), depth 2 in thorough (feature of a feature image). Oracle: array call == image call bitwise, input unchanged, masked-or-not '
+                 'kind kept, landmarks and mask unchanged or rescaled by the shape ratio, normaliser statistics against a numpy reference, idempotence, zero '
+                 'scale refused or skipped.'},
  'C19': {'design_ref': 'DESIGN.md 3/C19',
          'note': 'lists capped at 8 elements; deeper levels use reduced slice/index alphabets; boolean index arrays excluded as in the property',
          'technique': 'explicit-state BFS over operation programs on the implementation, differential against a reference model',
